@@ -339,7 +339,8 @@ func main() {
 		sb = 3
 	}
 	firstSet := []rx.Round{{Resp: "done-final", Beh: "next"}, {Resp: "rows", Beh: "next"}, {Resp: "done-count", Beh: "until-err"}}
-	secondSet := []rx.Round{{Resp: "done-count", Beh: "next"}, {Resp: "envchange-only", Beh: "next"}, {Resp: "rows", Beh: "until-err"}, {Resp: "no-done-at-all", Beh: "next"}}
+	secondSet := []rx.Round{{Resp: "done-count", Beh: "next"}, {Resp: "envchange-only", Beh: "next"}, {Resp: "rows", Beh: "until-err"}, {Resp: "no-done-at-all", Beh: "next"},
+		{Resp: "rows", Pack: 6, Beh: "next"}, {Resp: "returnstatus-doneproc", Pack: 6, Beh: "next"}}
 	if h.Thorough {
 		firstSet = append(firstSet, rx.Round{Resp: "eed-mixed", Beh: "next"}, rx.Round{Resp: "done-final", Pack: 2, Beh: "until-errw"}, rx.Round{Resp: "envchange-only", Beh: "nil-callback"})
 		secondSet = append(secondSet, rx.Round{Resp: "done-final", Beh: "next"}, rx.Round{Resp: "eed-last", Beh: "until-true"}, rx.Round{Resp: "two-result-sets", Pack: 2, Beh: "until-eof", J: 2})
